@@ -116,6 +116,14 @@ fn gen_prior(r: &mut Rng, own: &[(&str, bool)]) -> (String, Vec<String>) {
         if r.chance(1, 2) {
             t.push_str(&format!("{}: stale\n", k));
         }
+        if r.chance(1, 6) {
+            // names are compared exactly: the other-case spelling of an own key is a foreign field
+            let name: String = k.chars().map(|c| if c.is_ascii_lowercase() { c.to_ascii_uppercase() } else { c.to_ascii_lowercase() }).collect();
+            if name != *k && !own.iter().any(|(o, _)| *o == name) && !foreign.contains(&name) {
+                t.push_str(&format!("{}: other case {}\n", name, n));
+                foreign.push(name);
+            }
+        }
     }
     let name = format!("X-Foreign-{}", n);
     t.push_str(&format!("# trailing\n{}:\tlast\n", name));
